@@ -1739,6 +1739,7 @@ namespace bloch::runtime {
         Value ret = stampStatic(
             widenToSlot(m_returnValue, declaredKind(method->decl->returnType.get())),
             declaredClassName(method->decl->returnType.get()));
+        m_returnValue = {};
         endFrame();
         m_hasReturn = prevReturn;
         m_currentClassCtx = prevClass;
@@ -1773,6 +1774,8 @@ namespace bloch::runtime {
         }
         Value ret = stampStatic(widenToSlot(m_returnValue, declaredKind(fn->returnType.get())),
                                 declaredClassName(fn->returnType.get()));
+        // the return slot must not keep the returned object alive after the caller has let it go
+        m_returnValue = {};
         endFrame();
         m_hasReturn = prevReturn;
         m_currentClassCtx = prevClassCtx;
